@@ -16,7 +16,7 @@ RULE = (
 )
 ASSUMPTIONS = ["spec predicate contracts.palette_spec is the statement of C15 coded independently of the slot-filling loop"]
 RGBA = [(255, 0, 0, 1.0), (0, 128, 255, 1.0), (255, 0, 0, 0.5)]
-NFONTS = {"quick": 320, "thorough": 4000}
+NFONTS = {"quick": 960, "thorough": 4000}
 CHUNK = 1200
 
 
